@@ -57,6 +57,8 @@ pub trait Attack: Scheme {
 pub struct Forged<S: Scheme> {
     pub proof: Proof<S>,
     pub claimed: Vec<S::F>,
+    /// the point the forgery is made for, when it is not the one the caller proposed
+    pub point: Option<S::Pt>,
     pub desc: String,
     /// log2 of the probability that the forgery passes by the scheme's own (toy-size) soundness error
     pub guard_log2: Option<f64>,
@@ -114,6 +116,7 @@ pub fn lin_fs_omission_forge<S: Lin + Attack>(sess: &Session<S>, order: &[usize]
     let mp = vec![MProof { opening: lincode::MSingle { paths, v, columns }, well_formedness: wf_out }];
     let proof = lincode::proofs_unmirror::<S>(&mp).ok()?;
     Some(Forged {
+        point: None,
         proof,
         claimed,
         desc: format!("Fiat-Shamir omission forgery: positions derived without absorbing v, then v += a message whose encoding vanishes on the {} queried positions ({n_rows} x {n_cols} matrix, {n_ext} codeword positions)", distinct.len()),
@@ -194,6 +197,7 @@ where
     // (positions are drawn with replacement, so this holds whether or not t was capped at the codeword length)
     let guard = t_first as f64 * ((m as f64) / (n_ext as f64)).log2();
     Some(Forged {
+        point: None,
         proof,
         claimed,
         desc: format!("prover run on q = p + (message whose encoding vanishes on the first {m} of {n_ext} codeword positions), columns and paths re-authenticated from p ({n_rows} x {n_cols} matrix, t = {t_first})"),
@@ -262,6 +266,73 @@ pub fn mutate_kzg_proof(p: &kzg10::Proof<E>, g: G1A, ops: &[OpRaw]) -> (kzg10::P
 }
 
 impl Attack for Marlin {
+    const HAS_FORGE: bool = true;
+    /// "Root of the combined challenge polynomial": for a degree-bounded polynomial the verifier's pairing
+    /// equation is about (xi + xi' X^s)(p - v), s = max_degree - bound. A forger who assumes xi' = xi opens
+    /// at a point z with z^s = -1, where that polynomial vanishes for *every* v, and computes the witness
+    /// of xi (1 + X^s)(p - v') / (X - z) from the public parameters. With two independent challenges the
+    /// numerator does not vanish at z and the witness cannot verify.
+    fn forge(sess: &Session<Self>, order: &[usize], _point: &Fr, sel: u64) -> Option<Forged<Self>> {
+        use ark_ff::{FftField, Field};
+        use ark_poly::{DenseUVPolynomial, Polynomial};
+        // one non-hiding degree-bounded polynomial of the group
+        let i = *order.iter().find(|i| sess.meta[**i].bound.is_some() && sess.meta[**i].hiding.is_none())?;
+        if order.len() != 1 {
+            return None;
+        }
+        let b = sess.meta[i].bound?;
+        let max = sess.keys.info.max_degree;
+        let s = max - b;
+        if s == 0 {
+            return None;
+        }
+        // z with z^s = -1: a root of unity of order 2^(k+1) where 2^k exactly divides s
+        let k = s.trailing_zeros() as u64;
+        let z = Fr::get_root_of_unity(1u64 << (k + 1))?;
+        if z.pow([s as u64]) != -Fr::one() {
+            return None;
+        }
+        let p = sess.polys[i].polynomial();
+        let vfalse = p.evaluate(&z) + nz::<Fr>(sel ^ 0x33);
+        let xi = crate::replay::challenges(crate::replay::Schedule::Marlin, &[true], &mut sess.sponge())[0].0;
+        // numerator xi (1 + X^s)(p - v')
+        let mut q = p.coeffs().to_vec();
+        if q.is_empty() {
+            q.push(Fr::zero());
+        }
+        q[0] -= vfalse;
+        let mut num = vec![Fr::zero(); q.len() + s];
+        for (j, c) in q.iter().enumerate() {
+            num[j] += xi * c;
+            num[j + s] += xi * c;
+        }
+        // synthetic division by (X - z)
+        let mut w = vec![Fr::zero(); num.len() - 1];
+        let mut carry = Fr::zero();
+        for j in (0..num.len()).rev() {
+            let cur = num[j] + carry;
+            if j == 0 {
+                if !cur.is_zero() {
+                    return None; // not divisible: the assumption z^s = -1 failed
+                }
+            } else {
+                w[j - 1] = cur;
+                carry = cur * z;
+            }
+        }
+        let pp = &sess.keys.pp;
+        if w.len() > pp.powers_of_g.len() {
+            return None;
+        }
+        let wg: G1 = w.iter().zip(pp.powers_of_g.iter()).fold(G1::zero(), |acc, (c, g)| acc + *g * c);
+        Some(Forged {
+            proof: kzg10::Proof { w: wg.into_affine(), random_v: None },
+            claimed: vec![vfalse],
+            point: Some(z),
+            desc: format!("witness of xi(1 + X^{s})(p - v')/(X - z) at a point with z^{s} = -1 (degree bound {b}, max degree {max}), assuming the shifted part is combined with the same challenge"),
+            guard_log2: None,
+        })
+    }
     fn mutate(
         sess: &Session<Self>,
         _order: &[usize],
@@ -348,7 +419,7 @@ impl Attack for Ipa {
         let out = crate::util::guard(|| IpaPC::open(&pck, lqs.iter(), cs, point, &mut sp, ss, Some(&mut r)));
         let crate::util::Out::Ok(proof) = out else { return None };
         let claimed = lqs.iter().map(|q| q.polynomial().evaluate(point)).collect();
-        Some(Forged { guard_log2: None, proof, claimed, desc: format!("prover run under a key of {n} generators padded with {} identity elements ({} rounds)", big - n, n.trailing_zeros() as usize + k) })
+        Some(Forged { point: None, guard_log2: None, proof, claimed, desc: format!("prover run under a key of {n} generators padded with {} identity elements ({} rounds)", big - n, n.trailing_zeros() as usize + k) })
     }
     fn mutate(
         _sess: &Session<Self>,
@@ -602,6 +673,7 @@ impl Attack for Hyrax {
             claimed.push(vfalse);
         }
         Some(Forged {
+            point: None,
             proof: proofs,
             claimed,
             desc: format!("Fiat-Shamir omission forgery: challenge computed without {}, which is then solved for from the verification equations", if variant_b { "com_b (first equation run honestly with the prover's state)" } else { "com_d (public data only)" }),
